@@ -25,41 +25,60 @@ Definition is_prefix (d q : bytes) : bool := match strip_prefix d q with Some _ 
 
 Inductive sev :=
 | SWrite (ab : bool) (p : bytes) (o : obs)    (* ab = true: the direction Conn1 -> Conn2 *)
-| SWriteLate (ab : bool) (p : bytes) (o : obs)   (* return of a Write that was called before and parked: it did not start after Close *)
+| SWritePark (ab : bool) (p : bytes)          (* a Write was called and is parked (channel full): it is in flight *)
+| SWriteLate (ab : bool) (p : bytes) (o : obs)   (* return of that Write: it did not start after Close *)
 | SRead (ab : bool) (n : N) (o : obs)
 | SClose
 | SOther.
 
-Record sst := mkS { q_ab : bytes; q_ba : bytes; s_closed : bool; eof_ab : bool; eof_ba : bool }.
-Definition sinit : sst := mkS [] [] false false false.
-Definition qof (s : sst) (ab : bool) : bytes := if ab then q_ab s else q_ba s.
-Definition set_q (s : sst) (ab : bool) (q : bytes) (eof : bool) : sst :=
-  if ab then mkS q (q_ba s) (s_closed s) (eof_ab s || eof) (eof_ba s)
-  else mkS (q_ab s) q (s_closed s) (eof_ab s) (eof_ba s || eof).
+(* one direction: the queue, EOF seen, the payload of a Write in flight (its bytes may reach the reader
+   before the writer has returned), and whether that payload has already been moved to the queue *)
+Record sdir := mkSD { sq : bytes; seof : bool; sfl : option bytes; scm : bool }.
+Record sst := mkS { s_ab : sdir; s_ba : sdir; s_closed : bool }.
+Definition sinit : sst := mkS (mkSD [] false None false) (mkSD [] false None false) false.
+Definition dof (s : sst) (ab : bool) : sdir := if ab then s_ab s else s_ba s.
+Definition set_d (s : sst) (ab : bool) (d : sdir) : sst :=
+  if ab then mkS d (s_ba s) (s_closed s) else mkS (s_ab s) d (s_closed s).
 
 Definition spec_step (s : sst) (e : sev) : option sst :=
   match e with
   | SWrite ab p (ObW n r) =>
       if s_closed s then
         match r with WClosed => if n =? 0 then Some s else None | _ => None end
-      else Some (set_q s ab (qof s ab ++ firstn (N.to_nat n) p) false)
+      else let d := dof s ab in Some (set_d s ab (mkSD (sq d ++ firstn (N.to_nat n) p) (seof d) (sfl d) (scm d)))
   | SWrite _ _ ObBlocked => if s_closed s then None else Some s
   | SWrite _ _ _ => None
-  | SWriteLate ab p (ObW n r) => Some (set_q s ab (qof s ab ++ firstn (N.to_nat n) p) false)
+  | SWritePark ab p =>
+      if s_closed s then None      (* a Write called after Close must fail, not park *)
+      else let d := dof s ab in Some (set_d s ab (mkSD (sq d) (seof d) (Some p) false))
+  | SWriteLate ab p (ObW n r) =>
+      let d := dof s ab in
+      if scm d then   (* its bytes were already delivered: it must report them all as written *)
+        match r with WOk => if n =? lenN p then Some (set_d s ab (mkSD (sq d) (seof d) None false)) else None | _ => None end
+      else Some (set_d s ab (mkSD (sq d ++ firstn (N.to_nat n) p) (seof d) None false))
   | SWriteLate _ _ ObBlocked => Some s
   | SWriteLate _ _ _ => None
   | SRead ab n (ObR d r) =>
-      match strip_prefix d (qof s ab) with
+      let sd := dof s ab in
+      let res := match strip_prefix d (sq sd) with
+                 | Some q' => Some (q', sfl sd, scm sd)
+                 | None => match sfl sd with
+                           | Some p => match strip_prefix d (sq sd ++ p) with
+                                       | Some q' => Some (q', None, true)
+                                       | None => None end
+                           | None => None end
+                 end in
+      match res with
       | None => None
-      | Some q' =>
+      | Some (q', fl, cm) =>
           match r with
-          | REof => if s_closed s && is_nil q' then Some (set_q s ab q' true) else None
-          | _ => Some (set_q s ab q' false)
+          | REof => if s_closed s && is_nil q' then Some (set_d s ab (mkSD q' true fl cm)) else None
+          | _ => Some (set_d s ab (mkSD q' (seof sd) fl cm))
           end
       end
   | SRead _ n ObBlocked => if s_closed s && negb (n =? 0) then None else Some s
   | SRead _ _ _ => None
-  | SClose => Some (mkS (q_ab s) (q_ba s) true (eof_ab s) (eof_ba s))
+  | SClose => Some (mkS (s_ab s) (s_ba s) true)
   | SOther => Some s
   end.
 
@@ -69,11 +88,11 @@ Fixpoint spec_run (s : sst) (es : list sev) : option sst :=
   | e :: r => match spec_step s e with Some s' => spec_run s' r | None => None end
   end.
 
-(* fin = the observer closed and then drained both directions *)
+(* fin = the observer closed, joined its parked calls and then drained both directions *)
 Definition stream_ok (fin : bool) (es : list sev) : bool :=
   match spec_run sinit es with
   | None => false
-  | Some s => if fin then is_nil (q_ab s) && is_nil (q_ba s) && eof_ab s && eof_ba s else true
+  | Some s => if fin then is_nil (sq (s_ab s)) && is_nil (sq (s_ba s)) && seof (s_ab s) && seof (s_ba s) else true
   end.
 
 (* concurrent writer / reader on one direction: what each side saw, in its own order *)
